@@ -175,14 +175,14 @@ func init() {
 	vrt.Register(&vrt.Prop{
 		ID: "C15", Level: "fault_enumeration",
 		Rule: "every trial is a fresh IKNPSender.Send(n,true)/IKNPReceiver.Receive over an ideal base OT with monitor-chosen Delta; an honest run first (must not abort; its receiver outputs and (x,t0,t1) are recomputed by an independent shadow receiver with its own carry-less multiplier), " +
-			"then one run per fault: a single bit flip at a (column,row) of the payload or check matrix, double flips in a column, whole-column and whole-row flips, k-subsets, single bit flips of seed/x/t0/t1; also COT-level trials. " +
+			"then one run per fault: a single bit flip at a (column,row) of the payload or check matrix, double flips in a column, whole-column and whole-row flips, k-subsets, single bit flips of seed/x/t0/t1, single flips at every (thorough) or 128 sampled rows of batches of 600-2100 (several payload chunks and challenge blocks); also COT-level trials. " +
 			"Oracle: sender error, or correlation intact for the receiver's original choices. Non-trivial = the fault hit a column selected by Delta and a row that is used; distinct = (n, fault positions).",
 		Assumptions: []string{"faults are bit flips in transit (not an adaptive adversary)", "ideal base OT (harness code)"},
 		NumCases: func(t string) int {
 			if t == "thorough" {
-				return 16 + 64 + 160
+				return 16 + 64 + 168
 			}
-			return 48
+			return 51
 		},
 		Run: runC15,
 		Finalize: func(a *vrt.Agg) error {
@@ -207,17 +207,20 @@ func runC15(cs *vrt.Case) {
 	case th && cs.Idx < 80:
 		kind, part, parts = 1, cs.Idx-16, 64
 	case th:
-		kind = 2 + (cs.Idx-80)%6
+		kind = 2 + (cs.Idx-80)%7
 	case cs.Idx < 8:
 		kind, part, parts = 0, cs.Idx, 8
 	case cs.Idx < 16:
 		kind, part, parts = 1, cs.Idx-8, 8
 	default:
-		kind = 2 + (cs.Idx-16)%6
+		kind = 2 + (cs.Idx-16)%7
 	}
 	n := 64
 	if kind >= 2 {
 		n = vrt.Pick(r, []int{8, 64, 100, 600, 513, 1025})
+	}
+	if kind == 8 {
+		n = vrt.Pick(r, []int{600, 1024, 1025, 1600, 2100})
 	}
 	b := choiceVec(r, n, 4)
 	delta := ot.Label{D0: r.U64(), D1: r.U64()}
@@ -225,7 +228,7 @@ func runC15(cs *vrt.Case) {
 	// honest run
 	h := c15Run(r, n, b, delta, nil, nil)
 	cs.Count("honest_runs", 1)
-	desc := map[string]any{"n": n, "kind": []string{"payload single flips", "check-matrix single flips", "double flips in one column", "whole column", "whole row (changed choice)", "random k-subset", "label bits (seed,x,t0,t1)", "COT level"}[kind]}
+	desc := map[string]any{"n": n, "kind": []string{"payload single flips", "check-matrix single flips", "double flips in one column", "whole column", "whole row (changed choice)", "random k-subset", "label bits (seed,x,t0,t1)", "COT level", "payload single flips in large batches"}[kind]}
 	cs.SetSample(desc)
 	if h.pan != nil {
 		c15Panic(cs, h.pan, desc)
@@ -416,6 +419,36 @@ func runC15(cs *vrt.Case) {
 		cs.Count("exhaustive_label_bits", 512)
 	case 7:
 		c15COT(cs, r, n, desc)
+	case 8:
+		// large batches (several 512-row payload chunks, several 1024-row
+		// challenge blocks): single flips in columns selected by Delta, at
+		// every row (thorough: two columns) or at 128 sampled rows
+		var cols []int
+		for c := 0; c < 128 && len(cols) < 2; c++ {
+			if c0 := (c + r.Intn(128)) % 128; delta.Bit(c0) == 1 {
+				cols = append(cols, c0)
+			}
+		}
+		if len(cols) == 0 {
+			cs.Inconc("Delta has no set bit")
+			return
+		}
+		if th {
+			for _, col := range cols {
+				for row := 0; row < n; row++ {
+					trial([]flip{{row / 512, col, row % 512}}, nil, "single-large-batch")
+				}
+			}
+			cs.Count("exhaustive_rows_large_batches", int64(n*len(cols)))
+			break
+		}
+		for i := 0; i < 128; i++ {
+			row := r.Intn(n)
+			if i < 16 {
+				row = n - 1 - i // the last rows: partial chunk, partial block
+			}
+			trial([]flip{{row / 512, cols[i%len(cols)], row % 512}}, nil, "single-large-batch")
+		}
 	}
 }
 
